@@ -9,72 +9,72 @@ package extractor
 //@ func extractFromScriptContent
 //@   property C10
 //@   opaque
-//@   sweep idx slice div assert
+//@   sweep idx slice div assert extnil
 //@ func parseAttr
 //@   property C10
 //@   opaque
-//@   sweep idx slice div assert
+//@   sweep idx slice div assert extnil
 //@ func isContentType
 //@   property C10
 //@   opaque
-//@   sweep idx slice div assert
+//@   sweep idx slice div assert extnil
 //@ func resolveURL
 //@   property C10
 //@   opaque
-//@   sweep idx slice div assert
+//@   sweep idx slice div assert extnil
 //@ func extractBaseTag
 //@   property C10
 //@   opaque
-//@   sweep idx slice div assert
+//@   sweep idx slice div assert extnil
 //@ func HTMLAssets$1
 //@   property C10
 //@   opaque
-//@   sweep idx slice div assert
+//@   sweep idx slice div assert extnil
 //@   loop range invariant [groups] forall(j, 0, len(matches), len(matches[j]) == 2)
 //@ func HTMLAssets$2
 //@   property C10
 //@   opaque
-//@   sweep idx slice div assert
+//@   sweep idx slice div assert extnil
 //@ func HTMLAssets$3
 //@   property C10
 //@   opaque
-//@   sweep idx slice div assert
+//@   sweep idx slice div assert extnil
 //@ func HTMLAssets$4
 //@   property C10
 //@   opaque
-//@   sweep idx slice div assert
+//@   sweep idx slice div assert extnil
 //@ func HTMLAssets$5
 //@   property C10
 //@   opaque
-//@   sweep idx slice div assert
+//@   sweep idx slice div assert extnil
 //@   loop range invariant [groups] forall(j, 0, len(matches), len(matches[j]) == 2)
 //@ func HTMLAssets$6
 //@   property C10
 //@   opaque
-//@   sweep idx slice div assert
+//@   sweep idx slice div assert extnil
 //@ func HTMLAssets$7
 //@   property C10
 //@   opaque
-//@   sweep idx slice div assert
+//@   sweep idx slice div assert extnil
 //@ func HTMLAssets$8
 //@   property C10
 //@   opaque
-//@   sweep idx slice div assert
+//@   sweep idx slice div assert extnil
 //@ func HTMLAssets$9
 //@   property C10
 //@   opaque
-//@   sweep idx slice div assert
+//@   sweep idx slice div assert extnil
 //@ func HTMLOutlinks$1
 //@   property C10
 //@   opaque
-//@   sweep idx slice div assert
+//@   sweep idx slice div assert extnil
 //@ func sortURLs
 //@   property C10
 //@   opaque
-//@   sweep idx slice div assert
+//@   sweep idx slice div assert extnil
 
 // every other function of the package (helpers added later included)
-//@ sweepall C10 idx slice div assert
+//@ sweepall C10 idx slice div assert extnil
 
 // The comparison function handed to sort.Slice is only called with indexes valid for the slice
 // (sort's contract); it is not swept.
